@@ -106,6 +106,60 @@ macro_rules! group_array_harness {
         }
     };
 }
+/// A zero-sized output type with drop glue (a guard / permit / token): its ledger is a pair of global
+/// counters, since the value itself has no room for a pointer. (The unsafe sites branch on sizes, and a
+/// zero-sized output is exactly what Check mode produces for every type.)
+pub struct DZ;
+static Z_CREATED: core::sync::atomic::AtomicUsize = core::sync::atomic::AtomicUsize::new(0);
+static Z_DROPPED: core::sync::atomic::AtomicUsize = core::sync::atomic::AtomicUsize::new(0);
+impl DZ {
+    fn make() -> DZ {
+        Z_CREATED.fetch_add(1, core::sync::atomic::Ordering::SeqCst);
+        DZ
+    }
+}
+impl Drop for DZ {
+    fn drop(&mut self) {
+        Z_DROPPED.fetch_add(1, core::sync::atomic::Ordering::SeqCst);
+    }
+}
+fn z_counts() -> (usize, usize) {
+    (Z_CREATED.load(core::sync::atomic::Ordering::SeqCst), Z_DROPPED.load(core::sync::atomic::Ordering::SeqCst))
+}
+/// group([p; 2]) and collect_exactly::<[_; 2]> producing zero-sized values with drop glue.
+pub fn h_zst_outputs<M: VMode, const COLLECT: bool>() {
+    run::<u8, VS, (), _>(|inp, _s0| {
+        Z_CREATED.store(0, core::sync::atomic::Ordering::SeqCst);
+        Z_DROPPED.store(0, core::sync::atomic::Ordering::SeqCst);
+        let r: Result<M::Output<[DZ; 2]>, ()> = if COLLECT {
+            let it = crate::combinator::Map {
+                parser: anyit::<SymIn<u8>, X<VS>>(0, 3),
+                mapper: move |_o: u16| DZ::make(),
+                phantom: crate::EmptyPhantom::<u16>::new(),
+            };
+            it.collect_exactly::<[DZ; 2]>().gov::<M>(inp)
+        } else {
+            let p = anyp_multi::<SymIn<u8>, X<VS>>(0, 2).map(move |_o: u16| DZ::make());
+            group([p.clone(), p.clone()]).gov::<M>(inp)
+        };
+        let (created, dropped) = z_counts();
+        match r {
+            Ok(arr) => {
+                vcover!(true, "zero-sized outputs: all produced");
+                vassert!(created == if M::EMIT { 2 } else { 0 }, "C19/zst_outputs.values-are-built-only-when-output-is-built");
+                vassert!(dropped == 0, "C19/zst_outputs.success-hands-every-value-to-the-caller-undropped");
+                drop(arr);
+                let (c2, d2) = z_counts();
+                vassert!(c2 == created && d2 == created, "C19/zst_outputs.returned-values-are-dropped-once-by-the-caller");
+            }
+            Err(()) => {
+                vcover!(created >= 1, "zero-sized outputs: fails after producing values");
+                vassert!(dropped == created, "C19/zst_outputs.failure-drops-every-produced-value-exactly-once");
+            }
+        }
+    });
+}
+
 group_array_harness!(h_group_array2, 2, [0, 1]);
 group_array_harness!(h_group_array3, 3, [0, 1, 2]);
 
@@ -150,9 +204,11 @@ macro_rules! collect_exactly_harness {
                     Err(()) => {
                         vcover!(yielded >= 1, "collect_exactly: too few items after some");
                         vassert!(all_dropped_once(unsafe { &*tr }), "C19/collect_exactly.failure-drops-the-initialised-prefix-exactly-once");
+                        // the iteration may end early without the inner parser having recorded why (at its cap)
+                        vassert!(s.alt.is_some(), "C20/collect_exactly.failure-leaves-pending-error");
                     }
                 }
-                let _ = (s, s0);
+                let _ = s0;
             });
         }
     };
@@ -168,6 +224,10 @@ harnesses! {
     group_array2_check = h_group_array2::<Check>;
     #[kani::unwind(5)]
     group_array3_emit_t = h_group_array3::<Emit>;
+    #[kani::unwind(5)]
+    group_array2_zst_emit = h_zst_outputs::<Emit, false>;
+    #[kani::unwind(5)]
+    collect_exactly2_zst_emit = h_zst_outputs::<Emit, true>;
     #[kani::unwind(5)]
     collect_exactly2_emit = h_collect_exactly2::<Emit>;
     #[kani::unwind(5)]
